@@ -123,3 +123,127 @@ pub fn compare_reader(model: &mut Model, text: &str) -> Option<ReaderCmp> {
         }
     }
 }
+
+// ---- flat text content (lean/IweModel/Spec/Flat.lean, theorem C01.reader_content) ----------------------------------
+
+/// the harness' own concatenation of the texts the parser reports (front-matter block excepted), and whether a
+/// `Text` event occurs inside an HTML block
+pub fn flat_events(text: &str) -> (String, bool) {
+    let (mut out, mut in_meta, mut html_depth, mut html_text) = (String::new(), false, 0usize, false);
+    for ev in Parser::new_ext(text, md::options()) {
+        match ev {
+            Event::Start(Tag::MetadataBlock(_)) => in_meta = true,
+            Event::End(TagEnd::MetadataBlock(_)) => in_meta = false,
+            Event::Start(Tag::HtmlBlock) => html_depth += 1,
+            Event::End(TagEnd::HtmlBlock) => html_depth = html_depth.saturating_sub(1),
+            Event::Text(t) => {
+                if html_depth > 0 {
+                    html_text = true;
+                }
+                if !in_meta {
+                    out.push_str(&t)
+                }
+            }
+            Event::Code(t) | Event::InlineMath(t) | Event::InlineHtml(t) => out.push_str(&t),
+            _ => {}
+        }
+    }
+    (out, html_text)
+}
+
+fn flat_inlines(xs: &[liwe::model::document::DocumentInline], out: &mut String) -> Option<()> {
+    use liwe::model::document::DocumentInline as I;
+    for x in xs {
+        match x {
+            I::Str(s) => out.push_str(s),
+            I::Code(c) => out.push_str(&c.text),
+            I::Math(m) => out.push_str(&m.content),
+            I::Emph(e) => flat_inlines(&e.inlines, out)?,
+            I::Strong(e) => flat_inlines(&e.inlines, out)?,
+            I::Strikeout(e) => flat_inlines(&e.inlines, out)?,
+            I::Link(l) => flat_inlines(&l.inlines, out)?,
+            I::Image(l) => flat_inlines(&l.inlines, out)?,
+            _ => return None,
+        }
+    }
+    Some(())
+}
+
+/// flat text of the real reader's blocks; None = a constructor outside the modelled fragment
+pub fn flat_blocks(bs: &[liwe::model::document::DocumentBlock], out: &mut String) -> Option<()> {
+    use liwe::model::document::DocumentBlock as B;
+    for b in bs {
+        match b {
+            B::Para(p) => flat_inlines(&p.inlines, out)?,
+            B::Header(h) => flat_inlines(&h.inlines, out)?,
+            B::CodeBlock(c) => out.push_str(&c.text),
+            B::BlockQuote(q) => flat_blocks(&q.blocks, out)?,
+            B::BulletList(l) => {
+                for it in &l.items {
+                    flat_blocks(it, out)?
+                }
+            }
+            B::OrderedList(l) => {
+                for it in &l.items {
+                    flat_blocks(it, out)?
+                }
+            }
+            B::HorizontalRule(_) => {}
+            B::Table(t) => {
+                for c in &t.header {
+                    flat_inlines(c, out)?
+                }
+                for r in &t.rows {
+                    for c in r {
+                        flat_inlines(c, out)?
+                    }
+                }
+            }
+            _ => return None,
+        }
+    }
+    Some(())
+}
+
+pub struct FlatCmp {
+    pub grammar: String,
+    pub html_free: bool,
+    /// statement of `C01.reader_content` on the implementation: flat(real blocks) = flat(real events); None = not applicable
+    pub impl_holds: Option<bool>,
+    /// the model's two sides agree with the harness' own (events side, blocks side); None = not comparable
+    pub model_events_agree: bool,
+    pub model_blocks_agree: Option<bool>,
+    pub detail: String,
+}
+
+/// both sides of `C01.reader_content` for one text: from the Lean definitions (driver) and from the harness' own pass
+/// over the real parser's events and the real reader's blocks
+pub fn compare_flat(model: &mut Model, text: &str) -> Option<FlatCmp> {
+    let real = dump::catch(|| MarkdownReader::new().document(text)).ok()?;
+    let mut rb = String::new();
+    flat_blocks(&real.blocks, &mut rb)?;
+    let (re, html_text) = flat_events(text);
+    let reply = model.call(&format!("(reader.read {} {})", hex(text), events_sexp(text)));
+    let parts = dump::children(&reply);
+    if parts.first() != Some(&"reader") || parts.len() < 4 {
+        return Some(FlatCmp { grammar: "?".into(), html_free: false, impl_holds: None, model_events_agree: false, model_blocks_agree: None, detail: format!("protocol: {}", reply.chars().take(200).collect::<String>()) });
+    }
+    let grammar = parts[1].to_string();
+    let flat = dump::children(parts[3]);
+    let html_free = flat.get(1) == Some(&"true");
+    let me = flat.get(2).and_then(|s| unhex(s)).unwrap_or_default();
+    let mb = flat.get(3).and_then(|s| {
+        let c = dump::children(s);
+        if c.first() == Some(&"some") { c.get(1).and_then(|h| unhex(h)) } else { None }
+    });
+    let applicable = grammar == "complete" && html_free && !html_text;
+    let impl_holds = if applicable { Some(rb == re) } else { None };
+    let detail = if impl_holds == Some(false) {
+        let i = rb.bytes().zip(re.bytes()).position(|(a, b)| a != b).unwrap_or(rb.len().min(re.len()));
+        let from = i.saturating_sub(30);
+        format!("blocks …{:?} vs events …{:?}", rb.chars().skip(from).take(80).collect::<String>(), re.chars().skip(from).take(80).collect::<String>())
+    } else {
+        String::new()
+    };
+    Some(FlatCmp { grammar, html_free, impl_holds, model_events_agree: me == re && html_free != html_text, model_blocks_agree: mb.map(|m| m == rb), detail })
+}
